@@ -164,7 +164,12 @@ def handler (c : Command) (args : List Bytes) : A Unit :=
       modifyA fun w => { w with client := { w.client with src := ⟨content, List.replicate (content.length + 2) 8192⟩, srcFailAt := none, srcReads := 0, polls := [], cancelled := false, peerGot := [] } }
       let _ ← client (upload "STOR" rem true)
       pure ()
-    | _ => fail (str "Cannot open file '" ++ loc ++ str "'.")
+    | some none =>
+      -- a directory: `std::ifstream` opens it (open(2) succeeds), the first read fails
+      modifyA fun w => { w with client := { w.client with src := ⟨[], [8192, 8192]⟩, srcFailAt := some 0, srcReads := 0, polls := [], cancelled := false, peerGot := [] } }
+      let _ ← client (upload "STOR" rem true)
+      pure ()
+    | none => fail (str "Cannot open file '" ++ loc ++ str "'.")
   | .get => do
     needConnection
     let (rem, loc) ← match args with
